@@ -10,6 +10,7 @@ mod interp;
 mod items;
 mod scen;
 mod sched;
+mod values;
 
 use std::collections::HashMap;
 use std::io::{BufRead, BufWriter, Write};
@@ -112,15 +113,16 @@ fn main() {
 			.map(|s| s.to_string())
 			.or_else(|| info.payload().downcast_ref::<String>().cloned())
 			.unwrap_or_default();
-		if msg.starts_with("harness:") || msg.contains("not registered") || msg.contains("no world") {
+		if msg.starts_with("harness:") || msg.starts_with("values:") || msg.contains("not registered") || msg.contains("no world") {
 			eprintln!("HARNESS-PANIC {msg} at {:?}", info.location());
 		}
 	}));
 	let args: Vec<String> = std::env::args().collect();
 	let r = match args.get(1).map(|s| s.as_str()) {
 		Some("run") if args.len() == 4 => cmd_run(&args[2], &args[3]),
+		Some("values") if args.len() == 4 => values::cmd_values(&args[2], &args[3]),
 		_ => {
-			eprintln!("usage: hlverif run <inputs.ndjson> <traces.ndjson>");
+			eprintln!("usage: hlverif run|values <inputs.ndjson> <traces.ndjson>");
 			std::process::exit(2);
 		}
 	};
